@@ -371,8 +371,8 @@ def r_stable(c):
         c.check(bool(s.discharged), "R18-STABLE", s.func, s.stmt_text[:80],
                 m.loc(m.module_of(s.node), s.node),
                 "a key updater iterates an unordered collection")
-    if n < 4:
-        raise AnalysisError(f"only {n} key updaters found (floor 4)")
+    if n < 2:
+        raise AnalysisError(f"only {n} key updaters found (floor 2)")
     # the stateless reductions key by their type, and ==/hash agree with that
     ci = m.cls("pytato.reductions._StatelessReductionOperation")
     from pta.pat import has as phas
@@ -417,8 +417,8 @@ def r_no_dynamic_attrs(c):
                 f"{short(k)} defines {dyn}: getattr(node, '_pytools_persistent_hash_digest') "
                 "can be answered by another object's cached digest, so the node is keyed "
                 "like the array it wraps")
-    if n < 40:
-        raise AnalysisError(f"only {n} classes of the expression tree scanned (floor 40)")
+    if n < 28:
+        raise AnalysisError(f"only {n} classes of the expression tree scanned (floor 28)")
 
 
 def r_pickle(c):
